@@ -10,6 +10,7 @@ let () =
   | [ _; "udp"; path ] -> Drv_udp.run path
   | [ _; "fsmodel"; path ] -> Drv_fsmodel.run path
   | [ _; "crc"; path ] -> Drv_crc.run path
+  | [ _; "codec"; path ] -> Drv_codec.run path
   | _ ->
       prerr_endline "usage: driver <component> <ops>";
       exit 2
